@@ -1268,8 +1268,8 @@ def use_trap(scn, path=None):
                     del c["template-data"]
 
 
-def inj_missing_remote(rng, scn):
-    lv, d, path = level_dict(rng, scn)
+def inj_missing_remote(rng, scn, levels=("root", "pkg", "iface", "entry")):
+    lv, d, path = level_dict(rng, scn, levels)
     d["template"] = "file://@S@/tpl/does_not_exist.templ"
     scn["tags"].append("MissingRemoteTemplate")
     scn["tags"].append("level:" + lv)
@@ -1282,8 +1282,8 @@ def inj_schema_missing(rng, scn):
     scn["tags"].append("SchemaMissing")
 
 
-def inj_template_syntax(rng, scn):
-    lv, d, path = level_dict(rng, scn)
+def inj_template_syntax(rng, scn, levels=("root", "pkg", "iface", "entry")):
+    lv, d, path = level_dict(rng, scn, levels)
     d["template"] = "file://@S@/tpl/c10_badsyntax.templ"
     d["require-template-schema-exists"] = False
     scn["tags"].append("TemplateSyntax")
@@ -1583,8 +1583,9 @@ INJECTIONS = {
     "SchemaRejectIface": at(inj_schema_reject, "iface"), "SchemaRejectEntry": at(inj_schema_reject, "entry"),
     "SchemaRejectLater": inj_schema_reject_later, "SchemaRequired": inj_schema_required,
     "ConflictPackage": inj_conflict_pkg, "ConflictPkgName": inj_conflict_pkgname, "ConflictTemplate": inj_conflict_template,
-    "ConfigUnreadable": inj_config_unreadable, "NoPackages": inj_no_packages, "MissingRemoteTemplate": inj_missing_remote,
-    "SchemaMissing": inj_schema_missing, "TemplateSyntax": inj_template_syntax, "TemplateExecution": inj_exec_failure,
+    "ConfigUnreadable": inj_config_unreadable, "NoPackages": inj_no_packages, "MissingRemoteTemplate": inj_missing_remote, "MissingRemoteTemplateRootPkg": at(inj_missing_remote, "root", "pkg"),
+    "SchemaMissing": inj_schema_missing, "TemplateSyntax": inj_template_syntax,
+    "TemplateSyntaxRootPkg": at(inj_template_syntax, "root", "pkg"), "TemplateExecution": inj_exec_failure,
     "InvalidGoOutput": inj_invalid_go, "PrepareFailure": inj_prepare_failure,
 }
 TRAP_KINDS = {"TemplateExecution", "InvalidGoOutput", "TemplateExecutionLater", "InvalidGoOutputLater"}      # the valid base already uses the probe template
